@@ -59,6 +59,9 @@ func execSeq(sc seqScenario) *evid.Failure {
 	cstate := map[string]kstate{} // cache target
 	for i, op := range sc.Ops {
 		o := s.do(op)
+		if o.Panic != "" {
+			return evid.Failf("seq/panic", sc, "step %d %+v panicked: %s", i, op, o.Panic)
+		}
 		target := mstate
 		if isCacheKind(op.Kind) {
 			target = cstate
@@ -225,6 +228,15 @@ func runSchedule(sc schedScenario, prefix []int) (hist []hrec, trace []decision)
 	return hist, trace
 }
 
+func panicIn(hist []hrec) string {
+	for _, h := range hist {
+		if h.out.Panic != "" {
+			return fmt.Sprintf("worker %d: %+v panicked: %s", h.worker, h.op, h.out.Panic)
+		}
+	}
+	return ""
+}
+
 type schedStats struct {
 	schedules   int64
 	overlapping int64
@@ -242,6 +254,13 @@ func execSched(sc schedScenario, st *schedStats) *evid.Failure {
 		n++
 		if st != nil {
 			atomic.AddInt64(&st.schedules, 1)
+		}
+		if msg := panicIn(hist); msg != "" {
+			var order []int
+			for _, d := range trace {
+				order = append(order, d.chosen)
+			}
+			return evid.Failf("sched/panic", map[string]any{"workers": sc.Workers, "schedule": order}, "schedule %v: %s", order, msg)
 		}
 		if msg := checkHistory(hist, []string{"a", "b", "x", "y"}, model); msg != "" {
 			var order []int
@@ -418,6 +437,9 @@ func execStress(sc stressScenario) *evid.Failure {
 			o := s.do(op)
 			ret := atomic.AddInt64(&clock, 1)
 			hist = append(hist, hrec{worker: 99, op: op, call: call, ret: ret, out: o})
+		}
+		if msg := panicIn(hist); msg != "" {
+			return evid.Failf("stress/panic", sc, "repetition %d: %s", rep, msg)
 		}
 		if msg := checkHistory(hist, keys, model); msg != "" {
 			return evid.Failf("stress/not-linearizable", sc, "repetition %d: %s", rep, msg)
